@@ -89,7 +89,7 @@ func countSteps(path []string) (nB, nK, nR, nH int) {
 		switch {
 		case p[0] == 'B':
 			nB++
-		case p == "m1" || p == "p1" || p == "m2" || p == "p2":
+		case p == "m1" || p == "p1" || p == "m2" || p == "p2" || p == "m3":
 			nK++
 		case p == "R":
 			nR++
@@ -290,7 +290,7 @@ func (w *World) CanStep(st string) bool {
 		return !w.closedColl && w.persister != nil && !w.inGate && w.s.Enabled(w.persister)
 	case st == "Pe" || st == "Pf":
 		return w.inGate && !w.closedColl
-	case st == "m1" || st == "m2":
+	case st == "m1" || st == "m2" || st == "m3":
 		return !w.closedColl && w.merger != nil && w.s.Enabled(w.merger)
 	case st == "p1" || st == "p2":
 		return !w.closedColl && w.persister != nil && (w.inGate || w.s.Enabled(w.persister))
